@@ -32,6 +32,7 @@ func (m *Mutex) Lock() {
 func (m *Mutex) Unlock() {
 	m.holder = 0
 	m.mu.Unlock()
+	afterUnlock(unsafe.Pointer(m))
 }
 
 //go:norace
@@ -84,6 +85,7 @@ func (m *RWMutex) RLock() {
 func (m *RWMutex) RUnlock() {
 	m.readers--
 	m.mu.RUnlock()
+	afterUnlock(unsafe.Pointer(m))
 }
 
 //go:norace
@@ -113,6 +115,7 @@ func (m *RWMutex) Lock() {
 func (m *RWMutex) Unlock() {
 	m.writer = 0
 	m.mu.Unlock()
+	afterUnlock(unsafe.Pointer(m))
 }
 
 //go:norace
